@@ -82,6 +82,17 @@ def _cases(tier):
         yield (f"mapnode{n}", p, {"x": [["i", j] for j in range(n)], "e0": ["prov", "e0"]}, {})
     yield ("map-in-map", map_in_map(), {"x": [["i", 0], ["i", 1]], "y": [["j", 0], ["j", 1]]}, {"method": "map", "map_over": "x"})
     yield ("run-of-map-in-map", T.prog([T.gnode("mid", map_in_map(), map_over=["x"])]), {"x": [["i", 0], ["i", 1]], "y": [["j", 0], ["j", 1]]}, {})
+    # a body raising while its siblings wait for / hold permits: the permit must come back on the error path
+    for F in (3,) if tier == "quick" else (3, 4):
+        for eh in ("continue", "raise"):
+            yield (f"fanout{F}-f1-fails-{eh}", fanout(F), e, {"_fault": [["f1", 0]], "error_handling": eh})
+            yield (f"fanout{F}-generators-f0-fails-{eh}", fanout(F, False, True), e, {"_fault": [["f0", 0]], "error_handling": eh})
+    yield ("nested2-inner-fails", nested(2), e, {"_fault": [["l0_0", 0]], "error_handling": "continue"})
+    yield ("nested2-inner-and-outer-fail", nested(2), e, {"_fault": [["l0_1", 0], ["s2", 0]], "error_handling": "continue"})
+    items3 = [["i", j] for j in range(3)]
+    yield ("map3-2node-item-fails", map_item_graph(True), {"x": items3}, {"method": "map", "map_over": "x", "_fault": [["mb", 1]], "error_handling": "continue"})
+    pm = T.prog([T.gnode("item", map_item_graph(False), map_over=["x"]), T.fn("sib", ["e0"], ["s0"])])
+    yield ("mapnode3-item-fails", pm, {"x": items3, "e0": ["prov", "e0"]}, {"_fault": [["mb", 1]], "error_handling": "continue"})
 
 
 KS = [None, 1, 2, 3]
@@ -160,7 +171,9 @@ def history_case(acc, first, k1, k2, tier):
 
 
 def _run(prog, inputs, extra, k, ch):
-    h = H(ch, suspend=True)
+    extra = dict(extra)
+    fault = extra.pop("_fault", None)
+    h = H(ch, suspend=True, fault={(n, i) for n, i in fault} if fault else None)
     x = execute(prog, inputs, runner="async", chooser=ch, h=h, max_concurrency=k, budget=400000, **extra)
     return x
 
